@@ -258,6 +258,15 @@ class Engine(object):
         if z3.is_false(t):
             raise PathEnd('assume false')
 
+    def implied(self, cond):
+        """True iff the path condition implies cond (no forking)."""
+        t = z3.simplify(term_bool(cond))
+        if z3.is_true(t):
+            return True
+        if z3.is_false(t):
+            return False
+        return self._check(z3.Not(t)) == z3.unsat
+
     def feasible(self):
         return self._check() != z3.unsat
 
